@@ -692,19 +692,21 @@ PROPS = {
         'correspondence': 'FixedPoint.runHistory / solveRootGoal with the persistent cache (lean/ChalkModel/FixedPoint.lean) vs one chalk_recursive::RecursiveSolver answering a history (outcome kind, work counter, Cache entries through the cfg(chalk_verif) accessor)',
     },
     'C11': {
+        'extra_props': ['C11fp'],
         'level': 'proof',
         'rule': "MODEL lines: abstract instances are READ OFF THE REAL CODE (for every goal reachable from the root goals the harness asks chalk for the clauses solve_from_clauses would try - custom clauses, program_clauses_that_could_match, program_clauses_for_env, could_match filter - instantiates each against the goal with the real InferenceTable as Fulfill::new_with_clause does and canonicalizes the conditions as Fulfill::prove does; programs outside the abstraction of FixedPoint.lean are refused and counted) for three families: ground dependency graphs of <= 12 structs over an inductive and a #[coinductive] trait (chains with/without base case, diamonds, one cycle with/without base case entered through a tail, nested SCCs, two SCCs sharing nodes, random graphs; all-inductive / all-coinductive / mixed kinds; several impls per type), goals with unknowns (the F10 family: blanket impls `impl<X> Qi for X where X: Qj` + per trait no or >= 2 facts), and ProgGen programs with closed atomic goals whose goal closure is finite (<= 48 goals). One request line = one SCRIPT of calls on ONE real RecursiveSolver (cache on or off, overflow depth): per call the outcome kind (unique/none/ambig/panic:<site>), the hook's work counter and the hook-dumped cache must equal the model's, exactly. C11 scripts: for a root goal with n callback calls in a clean run, first call = solve_limited with the callback false from its k-th call on, k = 0..n+1 (capped at 12; set VERIF_FP_NONMONOTONE for 'false at the k-th call only' in the model lines too), or always false; then a second limited solve (callback false at its 2nd call), a plain solve of the same goal and of another goal; cache on and off. ORACLE (real code, SLG, recursive, recursive without cache): corpus/C11 first (F3, F16 inputs), generated subjects as C10; per goal every schedule - false ONLY at call k and false FROM call k on for k = 0..n+1 (capped 16 / 60), always, never - on a fresh solver: the limited answer must be the full answer or Ambig; then a second limited solve, solve(goal), solve(other goal) on the same instance must equal the fresh answers. A later difference that the same history WITHOUT interruption also shows is attributed to the C10 finding it reproduces. Non-trivial as C10",
         'technique': 'Lean 4 theorems about the executable model with the should_continue oracle at the head of solve_iteration + exact differential correspondence + exhaustive interruption schedules on both real solvers',
         'claim': "RECURSIVE framework, proof (acyclic instances, repaired code, every history, every oracle): interrupt_weaker_partial (an interrupted call that returns gives the fresh solver's answer or ambig), interrupt_then_fresh_partial (after any history of interrupted or panicking calls an uninterrupted solve returns the fresh solver's answer). Refutations by decide: legacy_interrupt_then_fresh_refuted (F3), legacy_unwrap_panics (F16), and interrupt_then_fresh_refuted on the REPAIRED code for all instances (through F13, not through interruption). SLG: differential only.",
-        'note': "Findings: F3 reproduced on the unchanged tree, REPAIRED (commit 9fd4e00); F16 (NEW: unwrap of NoSolution in the last pass of Fulfill::solve under a callback that says stop once and then go on) reproduced (cache off on the unchanged tree; always after the F3 repair), REPAIRED (commit 241c13c); F21 (NEW, C01-type: the ambiguity shortcut of reached_fixed_point kept Ambig(Definite) guidance computed before the fixed point - wrong definite guidance even without interruption, turned into a wrong Unique by an interrupted solve) reproduced by the thorough run, REPAIRED (commit 4d0be45: early exit only for Ambig(Unknown)); regression inputs in corpus/C11. C10's open findings F13, F14, F17 are also reported here when a history exercises them. NOT YET THEOREMS (differential only): both sentences for instances with cycles; makeSolution_interrupt for SLG. The model's last-pass test `constrained_subst().is_some()` is `v = unique` (exact when every ambig is Ambig(Unknown)); the model lines therefore use monotone oracles by default (0 disagreements were also observed with non-monotone ones).",
+        'note': "Findings: F3 reproduced on the unchanged tree, REPAIRED (commit 9fd4e00); F16 (NEW: unwrap of NoSolution in the last pass of Fulfill::solve under a callback that says stop once and then go on) reproduced (cache off on the unchanged tree; always after the F3 repair), REPAIRED (commit 241c13c); F21 (NEW, C01-type: the ambiguity shortcut of reached_fixed_point kept Ambig(Definite) guidance computed before the fixed point - wrong definite guidance even without interruption, turned into a wrong Unique by an interrupted solve) reproduced by the thorough run, REPAIRED (commit 4d0be45: early exit only for Ambig(Unknown)); regression inputs in corpus/C11. C10's open findings F13, F14, F17 are also reported here when a history exercises them. NOW THEOREMS (Props/C11fp.lean; ground instances of one polarity, any cycle structure, any should_continue oracle, cache on or off): interrupted_is_safe_approximation (the answer is the fixed-point answer or Ambig, Ambig only when the run was interrupted, the cache stays correct - nothing is written while `interrupted` is set), history_with_interruptions_correct (any history of calls with arbitrary oracles and budgets: every later uninterrupted call is exact). NOT YET THEOREMS: instances with unknowns or mixed cycles; makeSolution_interrupt for SLG. The model's last-pass test `constrained_subst().is_some()` is `v = unique` (exact when every ambig is Ambig(Unknown)); the model lines therefore use monotone oracles by default (0 disagreements were also observed with non-monotone ones).",
         'correspondence': 'FixedPoint.runCall with Call.oracle / Call.dflt (should_continue test of solve_iteration, interrupted flag) vs RecursiveSolver::solve_limited with a scripted callback',
     },
     'C12': {
+        'extra_props': ['C12fp'],
         'level': 'proof',
         'rule': "MODEL lines: abstract instances are READ OFF THE REAL CODE (for every goal reachable from the root goals the harness asks chalk for the clauses solve_from_clauses would try - custom clauses, program_clauses_that_could_match, program_clauses_for_env, could_match filter - instantiates each against the goal with the real InferenceTable as Fulfill::new_with_clause does and canonicalizes the conditions as Fulfill::prove does; programs outside the abstraction of FixedPoint.lean are refused and counted) for three families: ground dependency graphs of <= 12 structs over an inductive and a #[coinductive] trait (chains with/without base case, diamonds, one cycle with/without base case entered through a tail, nested SCCs, two SCCs sharing nodes, random graphs; all-inductive / all-coinductive / mixed kinds; several impls per type), goals with unknowns (the F10 family: blanket impls `impl<X> Qi for X where X: Qj` + per trait no or >= 2 facts), and ProgGen programs with closed atomic goals whose goal closure is finite (<= 48 goals). One request line = one SCRIPT of calls on ONE real RecursiveSolver (cache on or off, overflow depth): per call the outcome kind (unique/none/ambig/panic:<site>), the hook's work counter and the hook-dumped cache must equal the model's, exactly. C12 scripts: for a root goal with w work steps in a clean run, first call panics at work step b for b = 0..min(w,40) (the hook's budget = an injected panic between any two database callbacks that see different contexts), optionally a second panicking call, then plain solves of the goal and two more goals; cache on and off. ORACLE (real code; SLG, recursive; recursive without cache in the thorough tier): a RustIrDatabase wrapper (all methods delegated to the lowered Program, incl. interner and unification_database; program_clauses_for_env re-enters the wrapper) counts every callback; corpus/C12 first (F7, F19 inputs), generated subjects as C10; per goal N = callbacks of a clean solve (quick: N <= 150, thorough: <= 2000): for EVERY n = 1..N a fresh solver, the n-th callback panics (catch_unwind), in 1/4 of the cases a second injected panic during a later solve, then the SAME instance answers the goal and two further goals: answers must equal the fresh solver's, a panic is a failure. Non-trivial as C10",
         'technique': 'Lean 4 theorems about the executable model with a panic transition that leaves stack and search graph as they are + exact differential correspondence (budget panics) + exhaustive crash-point enumeration on both real solvers',
         'claim': "RECURSIVE framework, proof: root_ignores_leftovers (repaired code, ALL instances: solve_root_goal behaves as from an empty stack and search graph whatever a panic left), usable_after_panic_partial + cache_sound_after_panics (acyclic instances: after any history of calls panicking at any work step the cache holds only semantic values and a solve returns the fresh solver's answer), legacy_panic_before_push_partial (code as found: usable exactly when the panic precedes the first push). Refutations by decide: legacy_recursive_usable_after_panic_refuted (F7), usable_after_panic_refuted on the REPAIRED code for all instances (through F13). SLG: differential only - and it FAILS: F19.",
-        'note': "Findings: F7 (recursive half) reproduced on the unchanged tree, REPAIRED (commit c6d16f6), regression input in corpus/C12. OPEN: F19 slg_strand_lost_after_panic (the SLG half of DESIGN F7, now CONFIRMED by the crash-point enumeration: a strand held in a local of ensure_root_answer is dropped by the unwinding, later solves answer No solution), plus C10's F13/F14/F17 when a history exercises them. NOT YET THEOREMS (differential only): instances with cycles; the SLG strand-ownership state machine (no_strand_lost) is not modelled. Crash points are database callbacks; panics raised inside chalk itself are not injected. Trusted: Lean kernel, model fidelity, the counting wrapper, harness.",
+        'note': "Findings: F7 (recursive half) reproduced on the unchanged tree, REPAIRED (commit c6d16f6), regression input in corpus/C12. OPEN: F19 slg_strand_lost_after_panic (the SLG half of DESIGN F7, now CONFIRMED by the crash-point enumeration: a strand held in a local of ensure_root_answer is dropped by the unwinding, later solves answer No solution), plus C10's F13/F14/F17 when a history exercises them. NOW THEOREMS (Props/C12fp.lean; ground instances of one polarity, any cycle structure, cache on or off): panic_leaves_cache_correct (for EVERY budget a call returns the fixed-point answer or ends in the budget panic - the model's stand-in for a panic between two database callbacks - and in both cases leaves only correct cache entries), history_with_panics_correct (any history of calls each with an arbitrary budget: the next call is exact). NOT YET THEOREMS: instances with unknowns or mixed cycles; the SLG strand-ownership state machine (no_strand_lost) is not modelled (F19 lives there). Crash points are database callbacks; panics raised inside chalk itself are not injected. Trusted: Lean kernel, model fidelity, the counting wrapper, harness.",
         'correspondence': "FixedPoint.runCall with Call.budget (panic at a work step; no unwinding cleanup) followed by further calls vs one RecursiveSolver under the hook's work budget; real solvers under a counting/panicking RustIrDatabase wrapper vs fresh solvers",
     },
 }
